@@ -16,7 +16,8 @@ PKG = 'http://schemas.openxmlformats.org/package/2006'
 HDR = '<?xml version="1.0" encoding="UTF-8" standalone="yes"?>'
 
 
-def write_xlsx(path, sheets, defined_names=(), shared_strings=()):
+def write_xlsx(path, sheets, defined_names=(), shared_strings=(),
+               date1904=False):
     ct = [HDR, f'<Types xmlns="{PKG}/content-types">'
           '<Default Extension="rels" ContentType="application/vnd.'
           'openxmlformats-package.relationships+xml"/>'
@@ -35,7 +36,8 @@ def write_xlsx(path, sheets, defined_names=(), shared_strings=()):
     rels = (f'{HDR}<Relationships xmlns="{PKG}/relationships"><Relationship '
             f'Id="rId1" Type="{REL}/officeDocument" Target="xl/workbook.xml"/>'
             '</Relationships>')
-    wb = [HDR, f'<workbook xmlns="{NS}" xmlns:r="{REL}"><sheets>']
+    wb = [HDR, f'<workbook xmlns="{NS}" xmlns:r="{REL}">'
+          + ('<workbookPr date1904="1"/>' if date1904 else '') + '<sheets>']
     wrels = [HDR, f'<Relationships xmlns="{PKG}/relationships">']
     for i, (name, _) in enumerate(sheets, 1):
         wb.append('<sheet name="%s" sheetId="%d" r:id="rId%d"/>' % (
@@ -49,9 +51,13 @@ def write_xlsx(path, sheets, defined_names=(), shared_strings=()):
     wb.append('</sheets>')
     if defined_names:
         wb.append('<definedNames>')
-        for nm, val in defined_names:
-            wb.append('<definedName name="%s">%s</definedName>' % (
-                nm, escape(val)))
+        for entry in defined_names:
+            # (name, target) or (name, target, index of the sheet the name is
+            # local to)
+            nm, val = entry[0], entry[1]
+            local = ' localSheetId="%d"' % entry[2] if len(entry) > 2 else ''
+            wb.append('<definedName name="%s"%s>%s</definedName>' % (
+                nm, local, escape(val)))
         wb.append('</definedNames>')
     wb.append('</workbook>')
     styles = (
@@ -108,6 +114,7 @@ class SheetBuilder:
         self.order = []
         self.sst = []
         self.names = []
+        self.date1904 = False
 
     def sheet(self, name):
         if name not in self.sheets:
@@ -160,4 +167,4 @@ class SheetBuilder:
             for (r, c) in sorted(self.sheets[name]):
                 rows.setdefault(r, []).append(self.sheets[name][(r, c)])
             sheets.append((name, rows))
-        write_xlsx(path, sheets, self.names, self.sst)
+        write_xlsx(path, sheets, self.names, self.sst, self.date1904)
